@@ -1,7 +1,7 @@
 SPECIFICATION Spec
 CONSTANTS
   MaxInline = 22
-  Lens = {0, 1, 3, 21, 22, 23, 1024}
+  Lens = {0, 1, 2, 3, 7, 8, 9, 15, 16, 21, 22, 23, 24, 63, 64, 65, 255, 256, 1024, 4096}
   StaticLens = {0, 1, 3, 21, 22, 23}
   SkipValidate = {}
   OrdByForm = FALSE
